@@ -41,7 +41,7 @@ func (e *Eval) resolve(typ string, src interface{}, n *qgen.Node) (interface{}, 
 	switch typ {
 	case "Query":
 		switch n.Name {
-		case "users":
+		case "users", "usersV":
 			var l listvalue
 			for _, u := range d.Users {
 				l = append(l, uservalue{u})
@@ -49,7 +49,7 @@ func (e *Eval) resolve(typ string, src interface{}, n *qgen.Node) (interface{}, 
 			return l, nil
 		case "user":
 			return uservalue{d.UserByID(toInt(n.Args["id"]))}, nil
-		case "items":
+		case "items", "itemsV":
 			var l listvalue
 			for _, it := range d.Items {
 				l = append(l, itemvalue{it})
